@@ -273,6 +273,18 @@ impl Scenario for C03Key {
             // Relational laws over all pairs / triples, at quiescence.
             let n = keys.len();
             let mut bad: Option<(String, String)> = None;
+            // keys built, dropped and rebuilt on one thread from owned names of one length (the
+            // allocator hands the same block out again): the hash belongs to the content
+            for k in 0..4u32 {
+                let name = format!("rebuilt-name-{}", k);
+                let a = Key::from_name(name.clone());
+                let ha = a.get_hash();
+                drop(a);
+                let b = Key::from_parts(name.clone(), Vec::<metrics::Label>::new());
+                if ha != b.get_hash() {
+                    bad = Some(("eq-but-get-hash-differs".into(), format!("Key::from_name({:?}) hashed to {:#x}, the equal Key::from_parts({:?}, []) to {:#x} (keys built one after the other on one thread)", name, ha, name, b.get_hash())));
+                }
+            }
             let desc = |i: usize| format!("#{} {}", i, keys[i]);
             for a in 0..n {
                 if !(keys[a] == keys[a]) || keys[a].cmp(&keys[a]) != O::Equal {
